@@ -137,10 +137,21 @@ inline bool same_double_exact(double x, double y) {
 // for the expected number `want`.
 typedef bool (*NumRule)(const Val& want, const Val& got);
 
+// what a floating-point value becomes when the configuration stores it (JsonFloat = float when
+// ARDUINOJSON_USE_DOUBLE=0): "exact" then means exact after that narrowing
+inline double stored_float_value(double d) {
+#if defined(ARDUINOJSON_USE_DOUBLE) && !ARDUINOJSON_USE_DOUBLE
+  if (std::isfinite(d)) {
+    float f = (float)d;
+    return (double)f;
+  }
+#endif
+  return d;
+}
 inline bool num_exact(const Val& w, const Val& g) {
   if (w.k != g.k) return false;
   if (w.k == Val::Int) return w.neg == g.neg && w.mag == g.mag;
-  return same_double_exact(w.d, g.d);
+  return same_double_exact(stored_float_value(w.d), g.d);
 }
 // numbers by numeric value (C07/C18 wording): 1 == 1.0, -0.0 == 0
 inline bool num_by_value(const Val& w, const Val& g) {
